@@ -87,7 +87,9 @@ class C18(CheckBase):
             image = {'flux_base': base, 'ext': 'hfe' if '.hfe' in base else 'mfm'}
             ops = []
         elif src == 'genflux':
-            fc, dmg = fluxwork.gen_hostile_flux(rng, sides=1)
+            # half of these images are intact (and so accepted): option independence of the container and track decoders
+            # shows on images that load, not only on ones that are refused either way
+            fc, dmg = fluxwork.gen_hostile_flux(rng, sides=1, none_weight=8)
             surfaces = [dd.gen_surface(rng, variant='acorn', geom=(fc['tracks'], fc['spt']), img_id=8, side=0).to_json()]
             image = {'genflux': fc, 'surfaces': surfaces, 'damage': dmg, 'ext': 'mfm' if fc['container'] == 'mfm' else 'hfe'}
             ops = []
